@@ -47,7 +47,7 @@ _RE_COV = re.compile(r"^<(\w+) line \d+, col \d+ to line \d+, col \d+ of module 
 
 
 def _java(heap: str = "4g") -> List[str]:
-    return ["java", "-XX:+UseParallelGC", "-XX:ParallelGCThreads=4", f"-Xmx{heap}", "-cp", TLA_CP]
+    return ["java", "-XX:+UseParallelGC", "-XX:ParallelGCThreads=4", f"-Xmx{heap}", "-Xss64m", "-cp", TLA_CP]
 
 
 def scratch_dir(prefix: str = "verif-") -> str:
